@@ -218,7 +218,13 @@ def region_walk(view, decide, start=0, cut_edges=()):
         b = dq.popleft()
         succs = view.succs(b)
         c = conds.get(b)
-        if c is not None and c.kind in ("cmp", "call", "place"):
+        if c is not None and c.kind == "const" and getattr(c, "val", None) is not None and view.blocks[b]["t"]["k"] == "switch":
+            # the branch reads a constant on this path (a duplicated merge block behind `flag = true`)
+            truth = str(c.val) in ("1", "true")
+            t_ = view.blocks[b]["t"]
+            false_t = [tgt for val, tgt in t_["targets"] if str(val) == "0"]
+            succs = [s_ for s_ in succs if (s_ in false_t) != truth]
+        elif c is not None and c.kind in ("cmp", "call", "place"):
             r = decide(b, c)
             if r is not None:
                 te, fe = cmp_true_false_edges(view, b, c)
@@ -228,6 +234,11 @@ def region_walk(view, decide, start=0, cut_edges=()):
                 seen.add(s)
                 dq.append(s)
     return seen
+
+
+def reach_respecting_consts(view, start):
+    """Blocks reachable from `start` when a branch on a value that is a known constant on its path follows that constant."""
+    return region_walk(view, lambda b, c: None, start=start)
 
 
 def consistent_reach(view, cut_edges=(), start=0):
